@@ -79,6 +79,8 @@ impl Database {
     }
 
     pub(crate) fn reset(&self) {
+        #[cfg(jiff_verif)]
+        crate::verif::acquire_write(&self.zones, "zi.reset.zones");
         let mut zones = self.zones.write().unwrap();
         if let Some(ref names) = self.names {
             names.reset();
@@ -102,6 +104,8 @@ impl Database {
         // The fast path is when the query matches a pre-existing unexpired
         // time zone.
         {
+            #[cfg(jiff_verif)]
+            crate::verif::acquire_read(&self.zones, "zi.get.zones_read");
             let zones = self.zones.read().unwrap();
             if let Some(czone) = zones.get(query) {
                 if !czone.is_expired() {
@@ -113,6 +117,8 @@ impl Database {
                         czone.expiration,
                         czone.last_modified,
                     );
+                    #[cfg(jiff_verif)]
+                    crate::verif::point("zi.get.fast_hit");
                     return Some(czone.tz.clone());
                 }
             }
@@ -137,6 +143,8 @@ impl Database {
         // complicated. (And what happens if the I/O becomes outdated by the
         // time you acquire the lock?)
         let info = names.get(query)?;
+        #[cfg(jiff_verif)]
+        crate::verif::acquire_write(&self.zones, "zi.get.zones_write");
         let mut zones = self.zones.write().unwrap();
         let ttl = zones.ttl;
         match zones.get_zone_index(query) {
@@ -145,9 +153,13 @@ impl Database {
                 if czone.revalidate(&info, ttl) {
                     // Metadata on the file didn't change, so we assume the
                     // file hasn't either.
+                    #[cfg(jiff_verif)]
+                    crate::verif::point("zi.get.revalidate_ok");
                     return Some(czone.tz.clone());
                 }
                 // Revalidation failed. Re-read the TZif data.
+                #[cfg(jiff_verif)]
+                crate::verif::point("zi.get.reload");
                 let czone = match CachedTimeZone::new(&info, zones.ttl) {
                     Ok(czone) => czone,
                     Err(_err) => {
@@ -163,6 +175,8 @@ impl Database {
                 Some(tz)
             }
             Err(i) => {
+                #[cfg(jiff_verif)]
+                crate::verif::point("zi.get.load");
                 let czone = match CachedTimeZone::new(&info, ttl) {
                     Ok(czone) => czone,
                     Err(_err) => {
@@ -260,13 +274,19 @@ impl CachedTimeZone {
         ttl: Duration,
     ) -> Result<CachedTimeZone, Error> {
         let path = &info.inner.full;
+        #[cfg(jiff_verif)]
+        crate::verif::point("zi.new.open");
         let mut file =
             File::open(path).map_err(|e| Error::io(e).path(path))?;
         let mut data = vec![];
+        #[cfg(jiff_verif)]
+        crate::verif::point("zi.new.read");
         file.read_to_end(&mut data).map_err(|e| Error::io(e).path(path))?;
         let tz = TimeZone::tzif(&info.inner.original, &data)
             .map_err(|e| e.path(path))?;
         let name = info.clone();
+        #[cfg(jiff_verif)]
+        crate::verif::point("zi.new.stat");
         let last_modified = util::fs::last_modified_from_file(path, &file);
         let expiration = Expiration::after(ttl);
         Ok(CachedTimeZone { tz, name, expiration, last_modified })
@@ -301,6 +321,8 @@ impl CachedTimeZone {
             );
             return false;
         };
+        #[cfg(jiff_verif)]
+        crate::verif::point("zi.revalidate.stat");
         let Some(new_last_modified) =
             util::fs::last_modified_from_path(&info.inner.full)
         else {
@@ -396,6 +418,8 @@ impl ZoneInfoNames {
     /// If no names of time zones with corresponding TZif data files could be
     /// found in the given directory, then an error is returned.
     fn new(dir: &Path) -> Result<ZoneInfoNames, Error> {
+        #[cfg(jiff_verif)]
+        crate::verif::point("zi.names.walk_new");
         let names = walk(dir)?;
         let dir = dir.to_path_buf();
         let ttl = ZoneInfoNames::DEFAULT_TTL;
@@ -411,12 +435,16 @@ impl ZoneInfoNames {
     /// are refreshed from the file system before doing another check.
     fn get(&self, query: &str) -> Option<ZoneInfoName> {
         {
+            #[cfg(jiff_verif)]
+            crate::verif::acquire_read(&self.inner, "zi.names.get_read");
             let inner = self.inner.read().unwrap();
             if let Some(zone_info_name) = inner.get(query) {
                 return Some(zone_info_name);
             }
             drop(inner); // unlock
         }
+        #[cfg(jiff_verif)]
+        crate::verif::acquire_write(&self.inner, "zi.names.get_write");
         let mut inner = self.inner.write().unwrap();
         inner.attempt_refresh();
         inner.get(query)
@@ -425,12 +453,16 @@ impl ZoneInfoNames {
     /// Returns all available time zone names after attempting a refresh of
     /// the underlying data if it's stale.
     fn available(&self) -> Vec<String> {
+        #[cfg(jiff_verif)]
+        crate::verif::acquire_write(&self.inner, "zi.names.available");
         let mut inner = self.inner.write().unwrap();
         inner.attempt_refresh();
         inner.available()
     }
 
     fn reset(&self) {
+        #[cfg(jiff_verif)]
+        crate::verif::acquire_write(&self.inner, "zi.names.reset");
         self.inner.write().unwrap().reset();
     }
 }
@@ -473,6 +505,8 @@ impl ZoneInfoNamesInner {
     fn refresh(&mut self) {
         // PERF: Should we try to move this `walk` call to run outside of a
         // lock? It probably happens pretty rarely, so it might not matter.
+        #[cfg(jiff_verif)]
+        crate::verif::point("zi.names.walk_refresh");
         let result = walk(&self.dir);
         self.expiration = Expiration::after(self.ttl);
         match result {
@@ -595,6 +629,8 @@ fn walk(start: &Path) -> Result<Vec<ZoneInfoName>, Error> {
     let mut names = vec![];
     let mut stack = vec![start.to_path_buf()];
     while let Some(dir) = stack.pop() {
+        #[cfg(jiff_verif)]
+        crate::verif::point("zi.walk.read_dir");
         let readdir = match dir.read_dir() {
             Ok(readdir) => readdir,
             Err(err) => {
